@@ -15,7 +15,7 @@ Ltac unf := unfold result, no_cancel, fallback_nc, race_nc, cancelled_at, direct
   loser_orphan, F, server_alive, direct_ok, indirect_ok, lookup_ok, returns, residue_free,
   PEER_CONNECT_TIMEOUT, PEER_INDIRECT_CONNECT_TIMEOUT, LOOKUP_HAS_TIMEOUT, LOOKUP_TIMEOUT,
   CONNECT_CLOSES_ON_CANCEL, ATTEMPT_CLOSES_ON_CANCEL, INDIRECT_CLEANUP_ALWAYS, RACE_CANCELS_LOSER, RACE_DISCONNECTS_SECOND,
-  RACE_CANCELS_ON_CANCEL, INDIRECT_CLOSES_ARRIVED_ON_CANCEL, PIERCE_IGNORES_DONE_WAITER in *.
+  RACE_CANCELS_ON_CANCEL, RACE_CANCEL_DISCONNECTS_FINISHED, RACE_CANCEL_COVERS_WINNER_PATH, cancelled_tie, INDIRECT_CLOSES_ARRIVED_ON_CANCEL, PIERCE_IGNORES_DONE_WAITER in *.
 
 Ltac cases :=
   repeat match goal with
@@ -26,7 +26,7 @@ Ltac cases :=
 Lemma success_iff s :
   cancel s = None -> (returns (result s) = true <-> direct_ok s = true \/ indirect_ok s = true).
 Proof.
-  destruct s as [m a adl d dd i idl c sc]. cbn. intros ->.
+  destruct s as [m a adl d dd i idl c sc ct]. cbn. intros ->.
   destruct m, a, d, i, sc; unf; cbn; cases; cbn; split; intros; try tauto; try discriminate; try lia;
     intuition (try discriminate; try lia).
 Qed.
@@ -37,7 +37,7 @@ Lemma terminates s :
   exists t, at_time (result s) = Some t /\
             t <= ad_delay s + LOOKUP_TIMEOUT + PEER_CONNECT_TIMEOUT + PEER_INDIRECT_CONNECT_TIMEOUT.
 Proof.
-  destruct s as [m a adl d dd i idl c sc]. unfold delays_ok. cbn. intros -> (H1 & H2 & H3).
+  destruct s as [m a adl d dd i idl c sc ct]. unfold delays_ok. cbn. intros -> (H1 & H2 & H3).
   destruct m, a, d, i, sc; unf; cbn; cases; cbn; (split; [discriminate|]);
     eexists; (split; [reflexivity|]); lia.
 Qed.
@@ -45,22 +45,27 @@ Qed.
 (* a cancelled request ends at the moment of the cancellation *)
 Lemma nc_not_cancelled s : out (no_cancel s) <> OCancelled.
 Proof.
-  destruct s as [m a adl d dd i idl c sc].
+  destruct s as [m a adl d dd i idl c sc ct].
   destruct m, a, d, i, sc; unf; cbn; cases; cbn; discriminate.
 Qed.
 
 Lemma cancelled_at_time s x : at_time (cancelled_at s x) = Some x /\ out (cancelled_at s x) = OCancelled.
 Proof.
-  destruct s as [m a adl d dd i idl c sc].
+  destruct s as [m a adl d dd i idl c sc ct].
   destruct m; unfold cancelled_at, F, RACE_CANCELS_ON_CANCEL; cbn; cases; cbn; split; reflexivity.
 Qed.
+
+Lemma cancelled_tie_facts s t a : at_time (cancelled_tie s t a) = Some t /\ out (cancelled_tie s t a) = OCancelled.
+Proof. unfold cancelled_tie. cbn. split; reflexivity. Qed.
 
 Lemma cancel_is_prompt s x :
   cancel s = Some x -> out (result s) = OCancelled -> at_time (result s) = Some x.
 Proof.
   intros Hc. unfold result. rewrite Hc.
   destruct (at_time (no_cancel s)) as [t|]; [destruct (x <? t)|]; intros H;
-    try (now apply cancelled_at_time); now apply nc_not_cancelled in H.
+    try (now apply cancelled_at_time).
+  - destruct (Z.eqb_spec x t) as [->|]; [|now apply nc_not_cancelled in H].
+    destruct (ctie s) as [[]|]; try (now apply cancelled_tie_facts); try (now apply nc_not_cancelled in H); cbn; reflexivity.
 Qed.
 
 Lemma dir_cancel_residue_false b : dir_cancel_residue b = false.
@@ -80,22 +85,48 @@ Qed.
 
 Lemma residue_free_nc s : residue_free (no_cancel s) = true.
 Proof.
-  destruct s as [m a adl d dd i idl c sc].
+  destruct s as [m a adl d dd i idl c sc ct].
   destruct m, a, d, i, sc; unf; unf; cbn; cases; cbn; try reflexivity; try discriminate; try lia.
 Qed.
 
-Lemma residue_free_all s : residue_free (result s) = true.
+Lemma residue_free_tie s t a : residue_free (cancelled_tie s t a) = true.
 Proof.
-  unfold result. destruct (cancel s) as [x|]; [|apply residue_free_nc].
-  destruct (at_time (no_cancel s)) as [t|]; [destruct (x <? t)|];
-    first [apply residue_free_cancelled | apply residue_free_nc].
+  pose proof (residue_free_cancelled s t) as R. unfold residue_free, cancelled_tie in *. cbn.
+  repeat (apply andb_true_iff in R; destruct R as [R ?]).
+  unfold RACE_CANCEL_DISCONNECTS_FINISHED, ATTEMPT_CLOSES_ON_CANCEL. destruct (md s), a; cbn;
+    repeat (apply andb_true_iff; split); try assumption; reflexivity.
 Qed.
+
+Lemma residue_free_no_cancel s : cancel s = None -> residue_free (result s) = true.
+Proof. intros H. unfold result. rewrite H. apply residue_free_nc. Qed.
+
+(* every way a request can end leaves nothing behind -- except, today, a race-mode request that is cancelled while it already
+   holds the winner's connection (finding C11-N4; the premise is void once the code covers that path) *)
+Lemma residue_free_partial s :
+  (RACE_CANCEL_COVERS_WINNER_PATH = true \/ md s = Fallback \/ ctie s <> Some CancelAwaitingLoser) ->
+  residue_free (result s) = true.
+Proof.
+  intros Hp. unfold result. destruct (cancel s) as [x|]; [|apply residue_free_nc].
+  destruct (at_time (no_cancel s)) as [t|]; [destruct (x <? t)|];
+    try first [apply residue_free_cancelled | apply residue_free_nc].
+  destruct (x =? t); [|apply residue_free_nc].
+  destruct (ctie s) as [[]|]; try first [apply residue_free_tie | apply residue_free_nc].
+  pose proof (residue_free_tie s t true) as R. unfold residue_free in *. cbn [r_connecting waiters orphans r_open].
+  repeat (apply andb_true_iff in R; destruct R as [R ?]).
+  repeat (apply andb_true_iff; split); try assumption.
+  apply negb_true_iff. apply orb_false_iff. split; [now apply negb_true_iff|].
+  destruct Hp as [Hp|[Hp|Hp]]; [now rewrite Hp|now rewrite Hp|congruence].
+Qed.
+
+Lemma residue_free_refuted :
+  exists s x, md s = Race /\ cancel s = Some x /\ out (result s) = OCancelled /\ r_open (result s) = true.
+Proof. exists (mkS Race AGiven 0 DOk 4 INothing 0 (Some 4) BothDone (Some CancelAwaitingLoser)), 4. cbn. repeat split. Qed.
 
 Lemma returned_kind s w :
   cancel s = None -> out (result s) = ORet w -> either (result s) = false ->
   match w with WDirect => direct_ok s = true | WIndirect => indirect_ok s = true end.
 Proof.
-  destruct s as [m a adl d dd i idl c sc]. cbn. intros ->.
+  destruct s as [m a adl d dd i idl c sc ct]. cbn. intros ->.
   destruct m, a, d, i, sc; unf; cbn; cases; cbn; intros H He; inversion H; subst; cbn; try reflexivity; try lia; try discriminate.
 Qed.
 
@@ -103,7 +134,7 @@ Qed.
 Lemma returned_either s :
   cancel s = None -> either (result s) = true -> direct_ok s = true /\ indirect_ok s = true.
 Proof.
-  destruct s as [m a adl d dd i idl c sc]. cbn. intros ->.
+  destruct s as [m a adl d dd i idl c sc ct]. cbn. intros ->.
   destruct m, a, d, i, sc; unf; cbn; cases; cbn; intros H; try discriminate; split; try reflexivity; lia.
 Qed.
 
